@@ -36,13 +36,17 @@ TRUSTED = [
     "H_int, H_ext scaling is float multiplication (compared with rtol 1e-9); the theorems on H are over a commutative ring",
 ]
 ASSUMPTIONS = [
+    "re-declared shapes: the theorems speak about the pattern of a declared shape; that an existing object serves the "
+    "pattern of its CURRENT N_vials is checked by comparison only (the object/cache state machine is C04's subject)",
     "n_x, n_y, n_z >= 1 (integers); vial_arrangement 'square' or anything else (= hexagonal branch)",
     "geometric neighbours: square = unit Manhattan distance; hexagonal = odd rows offset by half a pitch, "
     "same-row distance one pitch, adjacent-row distance half a pitch; plus directly above/below",
 ]
 RULE = ("EXHAUSTIVE: every shape n_x, n_y <= 7, n_z <= 4 (quick) / n_x, n_y <= 12, n_z <= 5 (thorough) in both "
         "arrangements, all N^2 matrix entries, the exposure vector and the scaled H_int/H_ext (random k, the "
-        "configured A); a case is one (arrangement, shape, k); non-trivial when the batch has at least one pair of "
+        "configured A), and the same object re-declared to the transposed (or next wider) shape with the three "
+        "accessors read in one of the six orders, compared with a fresh object and with the model; a case is one "
+        "(arrangement, shape, k); non-trivial when the batch has at least one pair of "
         "neighbours; distinct by the JSON form of the case (the corpus cases repeat box shapes with other k)")
 EXPLANATION = ("Lean theorems for all shapes about the closed-form interaction pattern + exhaustive entrywise "
                "comparison of the pattern with Snowflake._buildInteractionMatrices over a box of shapes")
@@ -94,6 +98,25 @@ def _num(v):
     return int(v) if v == int(v) else v
 
 
+ORDERS = [("H_int", "H_ext", "H_shelf"), ("H_int", "H_shelf", "H_ext"), ("H_ext", "H_int", "H_shelf"),
+          ("H_ext", "H_shelf", "H_int"), ("H_shelf", "H_int", "H_ext"), ("H_shelf", "H_ext", "H_int")]
+
+
+def redeclared(case):
+    """the shape that an existing object of the case's shape is re-declared to, and the order in which the
+    three accessors are then read (all six orders occur over the box)"""
+    nx, ny, nz = case["nx"], case["ny"], case["nz"]
+    new = (ny, nx, nz) if nx != ny else (nx + 1, ny, nz)
+    return new, ORDERS[(nx + 2 * ny + 3 * nz) % 6]
+
+
+def _pattern(S):
+    H = np.asarray(S.H_int.todense())
+    ii, jj = np.nonzero(H)
+    return ([[int(i), int(j), float(H[i, j])] for i, j in zip(ii, jj)], [float(x) for x in np.asarray(S.H_ext).ravel()],
+            [float(x) for x in np.atleast_1d(np.asarray(S.H_shelf, dtype=float)).ravel()])
+
+
 def run_impl(case):
     from ethz_snow.snowflake import Snowflake
 
@@ -131,6 +154,22 @@ def run_impl(case):
     obs["heat_scale"] = float(np.sum(np.abs(H)) * 40.0 + 1.0)
     obs["row_sums"] = float(np.max(np.abs(H.sum(axis=1)))) if N else 0.0
     obs["col_sums"] = float(np.max(np.abs(H.sum(axis=0)))) if N else 0.0
+    # the same object re-declared to another shape: the accessors read in a given order must serve the
+    # topology of the new shape (compared with a fresh object of that shape, and with the model)
+    new, order = redeclared(case)
+    try:
+        S.N_vials = new
+        for name in order:
+            getattr(S, name)
+        hi, hx, hs = _pattern(S)
+        F = Snowflake(k={"int": case["k_int"], "ext": case["k_ext"], "s0": 20}, N_vials=new,
+                      configPath=config_for(case["arr"]))
+        fi, fx, fs = _pattern(F)
+        obs["redecl"] = {"shape": list(new), "order": list(order), "H_int": hi, "H_ext": hx,
+                         "same_as_fresh": bool(hi == fi and hx == fx and hs == fs),
+                         "n_int": [len(hi), len(fi)], "n_ext": [len(hx), len(fx)], "n_shelf": [len(hs), len(fs)]}
+    except Exception as e:
+        obs["redecl"] = {"shape": list(new), "order": list(order), "raise": core.exc_class(e)}
     return obs
 
 
@@ -139,6 +178,11 @@ def run_model(drv, case):
     if "error" in r:
         raise RuntimeError(r["error"])
     r["raise"] = r.get("raise")
+    new, _ = redeclared(case)
+    r2 = drv.call({"op": "topology", "arr": case["arr"], "nx": new[0], "ny": new[1], "nz": new[2]})
+    if "error" in r2:
+        raise RuntimeError(r2["error"])
+    r["redecl"] = {"entries": r2["entries"], "deg": r2["deg"], "ext": r2["ext"]}
     return r
 
 
@@ -180,6 +224,21 @@ def compare(case, impl, model):
         if not close(x, e * ke * A):
             dis.append(f"H_ext[{i}]: impl {x!r} vs model {e * ke * A!r}")
             break
+    rd, md = impl.get("redecl"), model.get("redecl")
+    if rd is not None and md is not None:
+        tag = f"object re-declared to {tuple(rd['shape'])}, accessors read as {'/'.join(rd['order'])}"
+        if "raise" in rd:
+            dis.append(f"{tag}: raises {rd['raise']}")
+        else:
+            wantH = {(i, j): v * ki * A for i, j, v in md["entries"]}
+            for i, d in enumerate(md["deg"]):
+                if d:
+                    wantH[(i, i)] = -d * ki * A
+            gotH = {(i, j): v for i, j, v in rd["H_int"]}
+            if (ki != 0 and set(wantH) != set(gotH)) or any(not close(v, wantH.get(k2, 0.0)) for k2, v in gotH.items()):
+                dis.append(f"{tag}: H_int is not the pattern of the new shape")
+            if len(rd["H_ext"]) != len(md["ext"]) or any(not close(x, e * ke * A) for x, e in zip(rd["H_ext"], md["ext"])):
+                dis.append(f"{tag}: H_ext is not the exposure of the new shape")
     return dis
 
 
@@ -229,6 +288,15 @@ def predicates(case, impl):
             out.append(Failure(clause="ext_eq", key=f"ext_eq|{site}|{ic}",
                                detail=f"{arr} {nx}x{ny}x{nz}: VIAL_EXT[{i}] = {impl['ext'][i]}, max {mx} - neighbours {nb}"))
             break
+    rd = impl.get("redecl")
+    if rd is not None and not rd.get("same_as_fresh", False):
+        first = rd["order"][0]
+        out.append(Failure(clause="redeclared_shape", key=f"redeclared_shape|{first}-first|{ic}",
+                           detail=f"{arr} object built for {nx}x{ny}x{nz}, then N_vials = {tuple(rd['shape'])} and "
+                                  f"{', '.join(rd['order'])} read in this order: "
+                                  + (f"raises {rd['raise']}" if "raise" in rd else
+                                     f"H_int/H_ext/H_shelf differ from a fresh object of that shape (sizes served/fresh: "
+                                     f"{rd['n_int']}, {rd['n_ext']}, {rd['n_shelf']})")))
     tol = 1e-9 * impl["heat_scale"]
     if abs(impl["heat_sum"]) > tol:
         out.append(Failure(clause="heat_cancels", key=f"heat_cancels|H_int|{ic}",
